@@ -181,8 +181,416 @@ pub fn rep_case(rng: &mut Rng, out: &mut Out) {
     );
 }
 
+
+// ------------------------------------------------------------------ parametric rules (implementation against an
+// independent evaluator of the documented semantics, docs/parametric.md)
+#[derive(Clone, Copy, Debug)]
+struct PRef {
+    x: u32,
+    y: u32,
+}
+impl PRef {
+    fn text(&self) -> String {
+        if self.x == 0 && self.y == 64 { "_".into() } else { format!("[{}:{}]", self.x, self.y) }
+    }
+    fn ones(&self) -> u64 {
+        if self.y - self.x == 64 { u64::MAX } else { (1u64 << (self.y - self.x)) - 1 }
+    }
+    fn field(&self, p: u64) -> u64 {
+        (p >> self.x) & self.ones()
+    }
+}
+#[derive(Clone, Debug)]
+enum PE {
+    Same,
+    SetBit(u32),
+    ClearBit(u32),
+    BitAnd(u64),
+    BitOr(u64),
+    Incr(PRef),
+    Decr(PRef),
+    Const(u64),
+}
+impl PE {
+    fn text(&self) -> String {
+        match self {
+            PE::Same => "_".into(),
+            PE::SetBit(k) => format!("set_bit({k})"),
+            PE::ClearBit(k) => format!("clear_bit({k})"),
+            PE::BitAnd(v) => format!("bit_and(0x{v:x})"),
+            PE::BitOr(v) => format!("bit_or({v})"),
+            PE::Incr(r) => format!("incr({})", r.text()),
+            PE::Decr(r) => format!("decr({})", r.text()),
+            PE::Const(v) => format!("{v}"),
+        }
+    }
+    fn eval(&self, p: u64) -> u64 {
+        match self {
+            PE::Same => p,
+            PE::SetBit(k) => p | (1 << k),
+            PE::ClearBit(k) => p & !(1 << k),
+            PE::BitAnd(v) => p & v,
+            PE::BitOr(v) => p | v,
+            PE::Incr(r) => if r.field(p) == r.ones() { p } else { p.wrapping_add(1 << r.x) },
+            PE::Decr(r) => if r.field(p) == 0 { p } else { p.wrapping_sub(1 << r.x) },
+            PE::Const(v) => *v,
+        }
+    }
+}
+#[derive(Clone, Debug)]
+enum PC {
+    True,
+    BitClear(u32),
+    BitSet(u32),
+    IsOnes(PRef),
+    IsZeros(PRef),
+    Cmp(&'static str, PRef, u64),
+    BitCount(&'static str, PRef, u32),
+    And(Box<PC>, Box<PC>),
+    Or(Box<PC>, Box<PC>),
+    Not(Box<PC>),
+}
+fn cmp_op(op: &str, a: u64, b: u64) -> bool {
+    match op {
+        "eq" => a == b,
+        "ne" => a != b,
+        "lt" => a < b,
+        "le" => a <= b,
+        "gt" => a > b,
+        _ => a >= b,
+    }
+}
+impl PC {
+    fn text(&self) -> String {
+        match self {
+            PC::True => "true".into(),
+            PC::BitClear(k) => format!("bit_clear({k})"),
+            PC::BitSet(k) => format!("bit_set({k})"),
+            PC::IsOnes(r) => format!("is_ones({})", r.text()),
+            PC::IsZeros(r) => format!("is_zeros({})", r.text()),
+            PC::Cmp(op, r, v) => format!("{op}({}, {v})", r.text()),
+            PC::BitCount(op, r, k) => format!("bit_count_{op}({}, {k})", r.text()),
+            PC::And(a, b) => format!("and({}, {})", a.text(), b.text()),
+            PC::Or(a, b) => format!("or({}, {})", a.text(), b.text()),
+            PC::Not(a) => format!("not({})", a.text()),
+        }
+    }
+    fn eval(&self, p: u64) -> bool {
+        match self {
+            PC::True => true,
+            PC::BitClear(k) => (p >> k) & 1 == 0,
+            PC::BitSet(k) => (p >> k) & 1 == 1,
+            PC::IsOnes(r) => r.field(p) == r.ones(),
+            PC::IsZeros(r) => r.field(p) == 0,
+            PC::Cmp(op, r, v) => cmp_op(op, r.field(p), *v),
+            PC::BitCount(op, r, k) => cmp_op(op, r.field(p).count_ones() as u64, *k as u64),
+            PC::And(a, b) => a.eval(p) && b.eval(p),
+            PC::Or(a, b) => a.eval(p) || b.eval(p),
+            PC::Not(a) => !a.eval(p),
+        }
+    }
+}
+#[derive(Clone, Debug)]
+struct PAlt {
+    term: Option<u8>,
+    call: Option<(usize, PE)>,
+    cond: PC,
+}
+struct PGram {
+    start_value: u64,
+    rules: Vec<Vec<PAlt>>,
+}
+impl PGram {
+    fn to_lark(&self) -> String {
+        let mut s = format!("start: p0::{}\n", self.start_value);
+        for (i, alts) in self.rules.iter().enumerate() {
+            let body: Vec<String> = alts
+                .iter()
+                .map(|a| {
+                    let mut t = String::new();
+                    match (a.term, &a.call) {
+                        (None, None) => t.push_str("\"\""),
+                        (Some(c), None) => t.push_str(&format!("\"{}\"", c as char)),
+                        (None, Some((j, e))) => t.push_str(&format!("p{j}::{}", e.text())),
+                        (Some(c), Some((j, e))) => t.push_str(&format!("\"{}\" p{j}::{}", c as char, e.text())),
+                    }
+                    if !matches!(a.cond, PC::True) {
+                        t.push_str(&format!(" %if {}", a.cond.text()));
+                    }
+                    t
+                })
+                .collect();
+            s.push_str(&format!("p{i}::_: {}\n", body.join("\n    | ")));
+        }
+        s
+    }
+    /// is `s` derivable from (rule, value)?  (calls without a terminal only go to higher rules: terminates)
+    fn derives(&self, rule: usize, v: u64, s: &[u8]) -> bool {
+        self.rules[rule].iter().any(|a| {
+            if !a.cond.eval(v) {
+                return false;
+            }
+            let rest = match a.term {
+                Some(c) => {
+                    if s.first() != Some(&c) {
+                        return false;
+                    }
+                    &s[1..]
+                }
+                None => s,
+            };
+            match &a.call {
+                Some((j, e)) => self.derives(*j, e.eval(v), rest),
+                None => rest.is_empty(),
+            }
+        })
+    }
+    /// (rule, value) pairs that derive some string; None when the reachable state space is too large
+    fn productive(&self) -> Option<std::collections::HashSet<(usize, u64)>> {
+        use std::collections::HashSet;
+        let mut reach: HashSet<(usize, u64)> = HashSet::new();
+        let mut todo = vec![(0usize, self.start_value)];
+        while let Some((r, v)) = todo.pop() {
+            if !reach.insert((r, v)) {
+                continue;
+            }
+            if reach.len() > 6000 {
+                return None;
+            }
+            for a in &self.rules[r] {
+                if a.cond.eval(v) {
+                    if let Some((j, e)) = &a.call {
+                        todo.push((*j, e.eval(v)));
+                    }
+                }
+            }
+        }
+        let mut prod: HashSet<(usize, u64)> = HashSet::new();
+        loop {
+            let mut changed = false;
+            for &(r, v) in &reach {
+                if prod.contains(&(r, v)) {
+                    continue;
+                }
+                let ok = self.rules[r].iter().any(|a| a.cond.eval(v) && match &a.call {
+                    Some((j, e)) => prod.contains(&(*j, e.eval(v))),
+                    None => true,
+                });
+                if ok {
+                    prod.insert((r, v));
+                    changed = true;
+                }
+            }
+            if !changed {
+                break;
+            }
+        }
+        // only grammars in which every reachable (rule, value) derives something: the engine materialises
+        // parametric rules lazily and cannot prune instances that derive nothing (as for C03, the
+        // statement is about productive grammars)
+        if prod.len() != reach.len() {
+            return None;
+        }
+        Some(prod)
+    }
+    /// is `s` a prefix of a derivable string?
+    fn viable(&self, prod: &std::collections::HashSet<(usize, u64)>, rule: usize, v: u64, s: &[u8]) -> bool {
+        if s.is_empty() {
+            return prod.contains(&(rule, v));
+        }
+        self.rules[rule].iter().any(|a| {
+            if !a.cond.eval(v) {
+                return false;
+            }
+            let rest = match a.term {
+                Some(c) => {
+                    if s[0] != c {
+                        return false;
+                    }
+                    &s[1..]
+                }
+                None => s,
+            };
+            match &a.call {
+                Some((j, e)) => self.viable(prod, *j, e.eval(v), rest),
+                None => rest.is_empty(),
+            }
+        })
+    }
+}
+
+fn gen_pref(rng: &mut Rng) -> PRef {
+    *rng.pick(&[PRef { x: 0, y: 64 }, PRef { x: 0, y: 2 }, PRef { x: 2, y: 4 }, PRef { x: 1, y: 3 }, PRef { x: 3, y: 6 }, PRef { x: 0, y: 3 }, PRef { x: 4, y: 5 }])
+}
+fn gen_pcond(rng: &mut Rng, depth: usize) -> PC {
+    let r = gen_pref(rng);
+    // whole-parameter comparisons against small constants, field comparisons against values the field can hold
+    let small = if r.y == 64 { rng.below(6) as u64 } else { rng.below((r.ones() + 2) as usize) as u64 };
+    match rng.below(if depth == 0 { 9 } else { 12 }) {
+        0 => PC::True,
+        1 => PC::BitClear(rng.below(6) as u32),
+        2 => PC::BitSet(rng.below(6) as u32),
+        3 => PC::IsOnes(if r.y == 64 { PRef { x: 0, y: 3 } } else { r }),
+        4 => PC::IsZeros(r),
+        5 | 6 => PC::Cmp(*rng.pick(&["eq", "ne", "lt", "le", "gt", "ge"]), r, small),
+        7 => PC::BitCount(*rng.pick(&["eq", "ne", "lt", "le", "gt", "ge"]), r, rng.below(4) as u32),
+        8 => PC::Cmp("lt", r, small.max(1)),
+        9 => PC::And(Box::new(gen_pcond(rng, depth - 1)), Box::new(gen_pcond(rng, depth - 1))),
+        10 => PC::Or(Box::new(gen_pcond(rng, depth - 1)), Box::new(gen_pcond(rng, depth - 1))),
+        _ => PC::Not(Box::new(gen_pcond(rng, depth - 1))),
+    }
+}
+fn gen_pexpr(rng: &mut Rng) -> PE {
+    match rng.below(10) {
+        0 => PE::Same,
+        1 | 2 => PE::SetBit(rng.below(6) as u32),
+        3 => PE::ClearBit(rng.below(6) as u32),
+        4 => PE::BitAnd(*rng.pick(&[0x3u64, 0xc, 0x3c, 0x15])),
+        5 => PE::BitOr(*rng.pick(&[1u64, 6, 8, 33])),
+        6 | 7 => PE::Incr(gen_pref(rng)),
+        8 => PE::Decr(gen_pref(rng)),
+        _ => PE::Const(rng.below(8) as u64),
+    }
+}
+fn gen_pgram(rng: &mut Rng) -> PGram {
+    let n = rng.range(1, 3);
+    let terms = [b'a', b'b', b'c', b'!'];
+    let mut rules = vec![];
+    for i in 0..n {
+        let mut alts = vec![];
+        // alternatives of one rule start with different terminals (the terminals cannot be confused)
+        let mut ts: Vec<u8> = terms.to_vec();
+        rng.shuffle(&mut ts);
+        let k = rng.range(1, 3);
+        for &t in ts.iter().take(k) {
+            let call = if rng.chance(4, 5) { Some((rng.below(n), gen_pexpr(rng))) } else { None };
+            alts.push(PAlt { term: Some(t), call, cond: gen_pcond(rng, 1) });
+        }
+        // a way out: the empty string, or a terminal-free call of a later rule
+        if i + 1 < n && rng.chance(1, 2) {
+            // (passing the parameter on unchanged: see the known finding in corpus/C05)
+            alts.push(PAlt { term: None, call: Some((rng.range(i + 1, n - 1), PE::Same)), cond: gen_pcond(rng, 1) });
+        }
+        if rng.chance(3, 4) {
+            alts.push(PAlt { term: None, call: None, cond: gen_pcond(rng, 1) });
+        }
+        rules.push(alts);
+    }
+    PGram { start_value: *rng.pick(&[0u64, 0, 1, 5, 12]), rules }
+}
+
+/// counters on bit ranges that do not start at bit 0 and are pushed into saturation
+fn counter_pgram(rng: &mut Rng) -> PGram {
+    let (r1, r2) = *rng.pick(&[(PRef { x: 0, y: 2 }, PRef { x: 2, y: 4 }), (PRef { x: 1, y: 3 }, PRef { x: 3, y: 5 }), (PRef { x: 0, y: 1 }, PRef { x: 1, y: 3 }), (PRef { x: 2, y: 4 }, PRef { x: 4, y: 7 })]);
+    let up = |r: PRef, rng: &mut Rng| if rng.chance(3, 4) { PE::Incr(r) } else { PE::Decr(r) };
+    let exit = match rng.below(3) {
+        0 => PC::And(Box::new(PC::IsOnes(r1)), Box::new(PC::IsOnes(r2))),
+        1 => PC::And(Box::new(PC::Cmp("ge", r1, r1.ones())), Box::new(PC::Not(Box::new(PC::IsZeros(r2))))),
+        _ => PC::Or(Box::new(PC::IsOnes(r1)), Box::new(PC::Cmp("eq", r2, 1))),
+    };
+    let rules = vec![vec![
+        PAlt { term: Some(b'a'), call: Some((0, up(r1, rng))), cond: PC::True },
+        PAlt { term: Some(b'b'), call: Some((0, up(r2, rng))), cond: PC::True },
+        PAlt { term: Some(b'!'), call: None, cond: exit },
+    ]];
+    PGram { start_value: if rng.chance(1, 3) { r2.ones() << r2.x } else { 0 }, rules }
+}
+
+
+/// corpus: grammar <TAB> text <TAB> derivable — complete strings judged by the recorded verdict
+fn corpus_case(out: &mut Out, line: &str) {
+    let parts: Vec<&str> = line.split('\t').collect();
+    if parts.len() != 3 {
+        return;
+    }
+    let lark = parts[0].replace("\\n", "\n");
+    let want = parts[2].trim() == "1";
+    let (ws, eos) = single_byte_vocab();
+    let env = make_env(&ws, eos, false);
+    let Ok(mut m) = new_matcher(&env, &lark, &[]) else { return };
+    let fed = parts[1].bytes().all(|b| !m.is_stopped() && m.consume_token(b as u32).is_ok());
+    let acc = fed && m.is_accepting().unwrap_or(false);
+    if acc != want {
+        out.violation(&format!("parametric grammar [corpus]: {:?} accepted = {acc}, derivable = {want}", parts[1]), lark.clone());
+    }
+    out.count("corpus_cases", 1);
+}
+
+pub fn param_case(rng: &mut Rng, out: &mut Out, maxlen: usize) {
+    let g = if rng.chance(1, 3) { counter_pgram(rng) } else { gen_pgram(rng) };
+    let lark = g.to_lark();
+    let Some(prod) = g.productive() else {
+        out.count("param_unproductive_or_too_large", 1);
+        return;
+    };
+    let (ws, eos) = single_byte_vocab();
+    let env = make_env(&ws, eos, false);
+    let Ok(m) = new_matcher(&env, &lark, &[]) else {
+        out.count("grammar_rejected", 1);
+        if !prod.is_empty() && prod.contains(&(0, g.start_value)) {
+            out.count("param_grammar_rejected", 1);
+        }
+        return;
+    };
+    // depth-first over the strings the implementation lets through, compared byte by byte with the evaluator
+    let mut stack: Vec<(llguidance::Matcher, Vec<u8>)> = vec![(m, vec![])];
+    let mut nodes = 0usize;
+    let mut bad = false;
+    while let Some((m, s)) = stack.pop() {
+        nodes += 1;
+        if nodes > 1500 || bad {
+            break;
+        }
+        let mut c = m.deep_clone();
+        if c.is_stopped() || c.is_error() {
+            continue;
+        }
+        let acc = c.is_accepting().unwrap_or(false);
+        let want_acc = g.derives(0, g.start_value, &s);
+        if acc != want_acc {
+            out.violation(&format!("parametric grammar: {:?} accepted = {acc}, derivable = {want_acc}", String::from_utf8_lossy(&s)), lark.clone());
+            bad = true;
+            break;
+        }
+        if s.len() >= maxlen {
+            continue;
+        }
+        let Ok(mask) = c.compute_mask() else {
+            if g.viable(&prod, 0, g.start_value, &s) && [b'a', b'b', b'c', b'!'].iter().any(|&b| { let mut t = s.clone(); t.push(b); g.viable(&prod, 0, g.start_value, &t) }) {
+                out.violation(&format!("parametric grammar: no mask after {:?} although the text can be continued", String::from_utf8_lossy(&s)), lark.clone());
+                bad = true;
+            }
+            continue;
+        };
+        let ml = mask_list(&mask);
+        for b in [b'a', b'b', b'c', b'!'] {
+            let mut t = s.clone();
+            t.push(b);
+            let allowed = ml.contains(&(b as u32));
+            let want = g.viable(&prod, 0, g.start_value, &t);
+            if allowed != want {
+                out.violation(&format!("parametric grammar: after {:?} byte {:?} allowed = {allowed}, prefix of a derivable string = {want}", String::from_utf8_lossy(&s), b as char), lark.clone());
+                bad = true;
+                break;
+            }
+            if allowed {
+                let mut d = c.deep_clone();
+                if d.consume_token(b as u32).is_ok() {
+                    stack.push((d, t));
+                }
+            }
+        }
+    }
+    out.count("param_grammars", 1);
+    out.count("param_nodes", nodes as u64);
+    out.case(tagged("noop", vec![sym("param"), int(nodes)]), tagged("noop", vec![sym("param"), int(nodes)]), nodes > 3);
+}
+
 pub fn run(rng: &mut Rng, out: &mut Out, tier: &str) {
     let (n, maxlen) = if tier == "thorough" { (1500, 7) } else { (250, 5) };
+    for line in corpus_lines("C05") {
+        corpus_case(out, &line);
+    }
     for i in 0..n {
         let mut r = rng.fork(i as u64);
         case(&mut r, out, maxlen);
@@ -190,5 +598,7 @@ pub fn run(rng: &mut Rng, out: &mut Out, tier: &str) {
             let mut r = rng.fork(0x0500_0000 + i as u64);
             rep_case(&mut r, out);
         }
+        let mut r = rng.fork(0x0510_0000 + i as u64);
+        param_case(&mut r, out, maxlen + 4);
     }
 }
